@@ -30,6 +30,9 @@ const (
 	envKinds = "DL_KINDS" // "h,x3,h,x0,p": what handler dl-<i> does (see kind* below); empty = all healthy
 	envCap   = "DL_CAP"   // seconds added to the hard caps of caller and daemon (gate cases keep them waiting on purpose)
 	envStdio = "DL_STDIO" // "1": after Done() the daemon uses its standard descriptors like a real daemon does
+	envNames = "DL_NAMES" // "edge": the calls use the edge-case handler names instead of dl-<i>
+	envNest  = "DL_NEST"  // n >= 2: handler i, after Done(), itself calls Launch of handler i+1 (while i+1 < n)
+	envDepth = "DL_DEPTH" // how many nested Launch calls lie above this process (set by the harness before a nested Launch)
 	envSteps = "DL_STEPS" // "1,1,3": the caller issues its Launch calls in steps of that many concurrent calls; empty = all at once
 
 	maxN          = 12
@@ -73,7 +76,35 @@ func parseKinds(s string) []string {
 	return strings.Split(s, ",")
 }
 
-func handlerName(i int) string { return fmt.Sprintf("dl-%d", i) }
+// Handler names. Call i of a caller uses dl-<i>, or - table "edge" - a name from the edges of
+// what a name can be; a name is a name: all of them must behave alike.
+var edgeNames = [maxN]string{
+	"",                          // the empty name
+	" ",                         // a blank
+	"a b",                       // blank inside
+	"x=y",                       // looks like an environment assignment
+	"ünï",                       // non-ASCII
+	strings.Repeat("n200-", 40), // 200 bytes
+	"n", "na", "nam",            // prefixes of each other
+	"isLauncher", "isDaemon", // the values of ENV_DAEMON_FLAG
+	"ENV_DAEMON_NAME", // the variable's own name
+}
+
+func nameOf(table string, i int) string {
+	if table == "edge" {
+		return edgeNames[i]
+	}
+	return fmt.Sprintf("dl-%d", i)
+}
+
+// registerHandlers registers every name of both tables; the handler knows its call index.
+func registerHandlers() {
+	for i := 0; i < maxN; i++ {
+		i := i
+		daemon.Register(nameOf("", i), func() { daemonMain(i) })
+		daemon.Register(nameOf("edge", i), func() { daemonMain(i) })
+	}
+}
 
 // Marker is written by the daemon handler as the first thing it does.
 type Marker struct {
@@ -200,6 +231,16 @@ func daemonMain(idx int) {
 			f.Close()
 		}
 	}
+	// nested launch: this daemon is itself a program that starts a daemon. Its environment still
+	// carries the ENV_DAEMON_* variables of its own launch.
+	nest, _ := strconv.Atoi(os.Getenv(envNest))
+	depth, _ := strconv.Atoi(os.Getenv(envDepth))
+	if rec.Called && idx+1 < nest && idx+1 < maxN && depth == idx {
+		os.Setenv(envDepth, strconv.Itoa(depth+1))
+		kinds := parseKinds(os.Getenv(envKinds))
+		r := CallReport{Idx: idx + 1, Kind: kindOf(kinds, idx+1), Name: nameOf(os.Getenv(envNames), idx+1), CalledBy: pid}
+		launchAndObserve(dir, &r, nil)
+	}
 	if os.Getenv(envStdio) == "1" {
 		useStdio(dir, pid, lpid)
 	}
@@ -304,6 +345,9 @@ type CallReport struct {
 	Idx       int    `json:"idx"`
 	Kind      string `json:"kind,omitempty"`
 	Step      int    `json:"step"`
+	Name      string `json:"name"`
+	CalledBy  int    `json:"called_by,omitempty"` // pid of the daemon that made this (nested) call; 0 = the caller
+	Missing   bool   `json:"missing,omitempty"`   // supervisor: no report of this nested call
 	Pid       int    `json:"pid"`
 	Err       string `json:"err,omitempty"`
 	Failed    bool   `json:"failed,omitempty"` // err != nil
@@ -350,11 +394,51 @@ func killOwnGroup() {
 	os.Exit(97)
 }
 
+// launchAndObserve calls Launch(r.Name) and records what is visible at the moment it returns;
+// the record is also written to ret.<idx>. Used by the caller and by daemons that launch.
+func launchAndObserve(dir string, r *CallReport, clock *atomic.Int64) {
+	if clock != nil {
+		r.CallStamp = clock.Add(1)
+	}
+	pid, err, pan := safeLaunch(r.Name)
+	// ---- the moment Launch returned: observe before anything else ----
+	r.GateOpen = exists(filepath.Join(dir, gateName))
+	if clock != nil {
+		r.RetStamp = clock.Add(1)
+	}
+	r.Pid, r.Panic = pid, pan
+	if err != nil {
+		r.Failed, r.Err = true, err.Error()
+	}
+	if pid > 0 {
+		var m Marker
+		if readJSON(filepath.Join(dir, fmt.Sprintf("marker.%d", pid)), &m) {
+			r.MarkerPresent, r.Marker = true, &m
+		}
+		var p PreDone
+		if readJSON(filepath.Join(dir, fmt.Sprintf("predone.%d", pid)), &p) {
+			r.PreDonePresent, r.PreDone = true, &p
+		}
+		r.Stat = readStat(pid)
+		r.DonePresent = exists(filepath.Join(dir, fmt.Sprintf("done.%d", pid)))
+		if r.Marker != nil {
+			if st, same := sameProcess(r.Marker.Launcher, r.Marker.LauncherStart); same {
+				r.LauncherAlive, r.LauncherState = true, st.State
+			}
+		}
+	}
+	r.FlagPresent = exists(filepath.Join(dir, flagName))
+	writeAtomic(dir, fmt.Sprintf("ret.%d", r.Idx), r)
+}
+
 // callerMain is the "original process" of the property: it calls Launch, observes, reports, exits.
 func callerMain() {
 	dir := os.Getenv(envDir)
 	n := len(parseDelays(os.Getenv(envDelays)))
-	if dir == "" || n == 0 || n > maxN {
+	if nest, _ := strconv.Atoi(os.Getenv(envNest)); nest > 1 {
+		n -= nest - 1 // the last nest-1 handlers are launched by daemons, not by this caller
+	}
+	if dir == "" || n <= 0 || n > maxN {
 		fmt.Fprintln(os.Stderr, "caller: bad environment")
 		os.Exit(2)
 	}
@@ -368,11 +452,10 @@ func callerMain() {
 		sigNote = "rt_sigaction: " + sigErr.Error()
 	}
 	h, herr := sigDisposition(syscall.SIGINT)
-	blk := statusFields("/proc/self/status", "SigBlk")["SigBlk"]
-	blkMask, berr := strconv.ParseUint(blk, 16, 64)
-	sigDefault := herr == nil && berr == nil && blkMask&(1<<(uint(syscall.SIGINT)-1)) == 0 && (h == 0 || (!wasIgn && h != 1))
+	blocked, berr := sigBlocked(syscall.SIGINT)
+	sigDefault := herr == nil && berr == nil && !blocked && h != 1
 	if !sigDefault {
-		sigNote += fmt.Sprintf(" disposition=%#x err=%v SigBlk=%s", h, herr, blk)
+		sigNote += fmt.Sprintf(" disposition=%#x err=%v blocked=%v err=%v", h, herr, blocked, berr)
 	}
 	// fd 3 is a pipe whose write end the supervisor holds: when the supervisor dies, the
 	// whole process group of this caller (launchers and daemons included) is killed.
@@ -408,37 +491,11 @@ func callerMain() {
 		os.Exit(2)
 	}
 	var clock atomic.Int64
+	names := os.Getenv(envNames)
 	launchOne := func(i, step int) {
 		r := &rep.Calls[i]
-		r.Idx, r.Kind, r.Step = i, kindOf(kinds, i), step
-		r.CallStamp = clock.Add(1)
-		pid, err, pan := safeLaunch(handlerName(i))
-		// ---- the moment Launch returned: observe before anything else ----
-		r.GateOpen = exists(filepath.Join(dir, gateName))
-		r.RetStamp = clock.Add(1)
-		r.Pid, r.Panic = pid, pan
-		if err != nil {
-			r.Failed, r.Err = true, err.Error()
-		}
-		if pid > 0 {
-			var m Marker
-			if readJSON(filepath.Join(dir, fmt.Sprintf("marker.%d", pid)), &m) {
-				r.MarkerPresent, r.Marker = true, &m
-			}
-			var p PreDone
-			if readJSON(filepath.Join(dir, fmt.Sprintf("predone.%d", pid)), &p) {
-				r.PreDonePresent, r.PreDone = true, &p
-			}
-			r.Stat = readStat(pid)
-			r.DonePresent = exists(filepath.Join(dir, fmt.Sprintf("done.%d", pid)))
-			if r.Marker != nil {
-				if st, same := sameProcess(r.Marker.Launcher, r.Marker.LauncherStart); same {
-					r.LauncherAlive, r.LauncherState = true, st.State
-				}
-			}
-		}
-		r.FlagPresent = exists(filepath.Join(dir, flagName))
-		writeAtomic(dir, fmt.Sprintf("ret.%d", i), r)
+		r.Idx, r.Kind, r.Step, r.Name = i, kindOf(kinds, i), step, nameOf(names, i)
+		launchAndObserve(dir, r, &clock)
 	}
 	next := 0
 	for step, sz := range steps {
